@@ -1,1 +1,2 @@
 import PexpectModel.Drv.Ex
+import PexpectModel.Drv.Launch
